@@ -12,7 +12,12 @@ VERUS_UNITS = {
     'complex-parser': dict(unit='complex-parser', rlimit=30),
 }
 
-KANI_GROUPS = {}
+# name -> dict(mods=[(module file the harness becomes a child of, harness file, module name)], flags, timeout, jobs)
+# --no-overflow-checks silences CBMC's own float NaN/overflow checks (NaN and inf are values, C05); rustc's
+# overflow assertions, which C01/C06/C09 rely on, stay on (canary in every group)
+KANI_GROUPS = {
+    'number-l4': dict(mods=[('src/eval_number/mod.rs', 'kani/number_l4.rs', 'verif_l4')], flags=['--no-overflow-checks'], timeout=600, jobs=4),
+}
 
 PARSERS = ['i64-parser', 'f64-parser', 'number-parser', 'decimal-parser', 'complex-parser']
 
@@ -48,6 +53,10 @@ PLAN = {
                 unclaimed=['whitespace removal (eval_* glue)', 'alias spellings (tokenizer keyword arms)']),
     'C14': dict(verus=ALL_V, level='proof', assumptions=AST_ASSUME + PARSER_ASSUME,
                 unclaimed=['eval_* glue passing Some(placeholder)', 'leaf evaluation in eval_f64 / number / decimal / complex']),
+    'C18': dict(kani=['number-l4'], level='proof',
+                assumptions=['A-ieee: rustc/LLVM and CBMC agree on IEEE-754 binary64 comparison, floor and float->int casts',
+                             'loop-free harness over kani::any::<f64>() / kani::any::<i64>(): every bit pattern, no bound'],
+                unclaimed=[]),
     'C20': dict(verus=ALL_V, level='proof', assumptions=AST_ASSUME + PARSER_ASSUME,
                 unclaimed=['eval of f64 / number / decimal / complex']),
 
@@ -90,8 +99,10 @@ LEVEL_TEXT = {
     'C14': _V + 'the `@` arm yields the leaf holding the stored placeholder and takes no part in implicit multiplication; Parser::new stores the placeholder; the eval_i64 leaf returns its payload.',
     'C20': _V + 'a bracketed group is parsed from level DefaultZero independently of its context (sp_group); eval_i64::eval is a function of the children\'s values (its contract against spec_eval).',
 }
+LEVEL_TEXT['C18'] = ('Kani/CBMC proves two loop-free harnesses over the full input domain (all 2^64 doubles, all i64) that call the real, '
+                     'unmodified Number::from and assert the exact characterisation of the property; a loop-free full-domain harness is a complete proof.')
 DESIGN_REF = {}
-TECHNIQUE = {}
+TECHNIQUE = {'C18': 'contract-style full-domain Kani harness on the unmodified function (bit-precise, no unwinding bound)'}
 NOT_APPLICABLE = {
     'C05': 'not yet covered: eval_f64::ast cannot be taken by Verus (no float theory, unary minus on floats rejected); the per-constructor Kani obligations of DESIGN 6.3 are not built yet',
     'C07': 'not yet covered: eval_decimal::ast against the rust_decimal contract header is not built yet',
@@ -100,6 +111,5 @@ NOT_APPLICABLE = {
     'C15': 'not yet covered: relational Kani obligations between evaluators are not built yet',
     'C16': 'contracts speak about one call: neither installed verifier can quantify over unbounded call histories or thread interleavings (Kani has no threads; Verus would need permission types around code that has no shared state to annotate)',
     'C17': 'not yet covered: per-feature-subset re-verification is not built yet',
-    'C18': 'not yet covered: Kani full-domain harness for Number::from is not built yet',
     'C19': 'not yet covered: tokenizer literal arms (L1) are not under contract yet',
 }
